@@ -367,7 +367,6 @@ theorem sha256_Sigma0_gate_sound (k iv : List Nat) (l : Nat → Nat)
         (· + ·) 0 = spreadFuel 32 evn + 2 * spreadFuel 32 odd) :
     evn = (sha256P k iv).bigSigma0 (pow2Ip Gen.sha256DecA.1 (Gen.sha256DecA.2.map l)) := by
   obtain ⟨hA, hrot⟩ := sha256_Sigma0_gate_rotations l h10 h9 h11 h2
-  simp only at hA hrot
   set A := pow2Ip Gen.sha256DecA.1 (Gen.sha256DecA.2.map l) with hAdef
   -- each inner product of spreaded limbs is the spread of the corresponding rotation
   have hb : ∀ ka ∈ [(11, l 11), (9, l 9), (10, l 10), (2, l 2)], ka.2 < 2 ^ ka.1 := by
@@ -410,17 +409,7 @@ theorem sha256_Sigma0_gate_sound (k iv : List Nat) (l : Nat → Nat)
     have hs : (10 + (2 + (11 + (9 + 0)))) = 32 := rfl
     rw [hs] at s3
     rw [s3]; ring
-  have hlt : ∀ r, 0 < r → r < 32 → rotr 32 A r < 2 ^ 32 := by
-    intro r hr0 hr
-    unfold rotr
-    have h1 : A / 2 ^ r < 2 ^ (32 - r) := by
-      rw [Nat.div_lt_iff_lt_mul (Nat.two_pow_pos r), ← pow_add]
-      have : 32 - r + r = 32 := by omega
-      rw [this]; exact hA
-    have h2 : A % 2 ^ r < 2 ^ r := Nat.mod_lt _ (Nat.two_pow_pos r)
-    have h3 : 2 ^ 32 = 2 ^ r * 2 ^ (32 - r) := by rw [← pow_add]; congr 1; omega
-    rw [h3]
-    nlinarith [Nat.two_pow_pos r, Nat.two_pow_pos (32 - r)]
+  have hlt : ∀ r, 0 < r → r < 32 → rotr 32 A r < 2 ^ 32 := fun r _ hr => rotr_lt 32 A r hA (by omega)
   have hsum : spreadFuel 32 (rotr 32 A 2) + spreadFuel 32 (rotr 32 A 13) + spreadFuel 32 (rotr 32 A 22)
       = spreadFuel 32 evn + 2 * spreadFuel 32 odd := by
     rw [e1, e2, e3, ← hgate]; ring
